@@ -132,6 +132,7 @@ def measure_dropfirst(sc):
 def tlc_part(sc, rep, tier, dropfirst):
     states = trans = 0
     details = []
+    predictions = {}
     nmax = 2 if tier == "quick" else 3
     runs = []
     for n in range(1, nmax + 1):
@@ -147,18 +148,17 @@ def tlc_part(sc, rep, tier, dropfirst):
         if r.violated:
             sigx = {"NoLeakNormal": "normal-exit-leak", "NoLeakUnregistered": "sigint-leak:unregistered-at-exit",
                     "NoLeakRegistered": "sigint-leak:registered-after-handler-pass"}.get(r.violated, r.violated)
-            rep.violation("model:" + sigx,
-                          "S4Run.tla (DROPFIRST=%s as measured from the code) violates %s in config %s"
-                          % (dropfirst, r.violated, name),
-                          {"kind": "tlc", "config": {k: (sorted(v) if isinstance(v, set) else v) for k, v in consts.items()},
-                           "invariant": r.violated, "cmd": r.cmd, "counterexample_tail": r.output[-6000:]})
+            # DROPFIRST / REGATOMIC are read off the code structurally; a violation of the model under them is a
+            # PREDICTION that must be reproduced on the real binary before it is reported (soundness rule 1)
+            predictions.setdefault(sigx, {"config": name, "invariant": r.violated, "cmd": r.cmd,
+                                          "counterexample_tail": r.output[-4000:]})
         else:
             common.tlc_must_pass(r, name)
         states += r.distinct
         trans += r.generated
         details.append({"config": name, "distinct": r.distinct, "generated": r.generated,
                         "result": "ok" if r.ok else str(r.violated), "wall_s": round(r.wall, 1)})
-    return states, trans, details
+    return states, trans, details, predictions
 
 
 GATE_OF = {"WStart": "WStart", "TempCreate": "TempCreate", "TempRegister": "TempRegister", "SendStart": "SendStart",
@@ -191,7 +191,7 @@ def run(pid, tier, seed):
     common.build_s4()
     with Scratch(pid) as sc:
         dropfirst, free1 = measure_dropfirst(sc)
-        states, trans, details = tlc_part(sc, rep, tier, dropfirst)
+        states, trans, details, predictions = tlc_part(sc, rep, tier, dropfirst)
 
         combos = [["jgz"], ["jgz", "jbz2"], ["egz"], ["jxz", "egz", "jlz4"]]
         if tier == "thorough":
@@ -220,13 +220,27 @@ def run(pid, tier, seed):
                                  "sigint+hold:%s:%s" % (t[0], g)))
         # (c) orders taken from the model's counterexamples: signal while another worker has created its
         #     file but not yet registered it; signal before a late worker creates its file
-        for keys in [c for c in combos if len(c) >= 2][: (1 if tier == "quick" else 3)]:
+        for keys in [c for c in combos if len(c) >= 2][: (2 if tier == "quick" else 5)] * (2 if tier == "quick" else 4):
             jobs.append((keys, {"S4_VERIF_SIGINT": "w0:SendDone:0", "S4_VERIF_HOLD": "w1:TempCreate:0:300"}, None, None,
                          "plan:created-unregistered"))
             jobs.append((keys, {"S4_VERIF_SIGINT": "w0:SendDone:0", "S4_VERIF_HOLD": "w1:WStart:0:300"}, None, None,
                          "plan:create-after-handler"))
             jobs.append((keys, {"S4_VERIF_SIGINT": "w0:TempRegister:0", "S4_VERIF_HOLD": "w1:TempCreate:0:300"},
                          None, None, "plan:created-unregistered-early"))
+            # turnstile: the last worker starts only after the handler has finished, creates and lists its file,
+            # and only then may main exit (a file created after the handler's pass must not survive)
+            lastw = "w%d" % (len(keys) - 1)
+            # (main is kept out of select() -- where it holds the read lock the handler needs -- by planning its
+            # first passage of the Recv gate after the handler's last step)
+            for trig in ("w0:WStart:0", "w0:SendStart:0", "w0:TempRegister:0"):
+                jobs.append((keys, {"S4_VERIF_SIGINT": trig, "S4_VERIF_PLAN_TIMEOUT_MS": "700"},
+                             [("sig", "HFlag"), (lastw, "WStart"), (lastw, "TempRegister"), ("main", "Recv"),
+                              ("main", "MainExit")], None, "plan:create-after-handler-pass"))
+            # turnstile: the handler's removal pass runs while the last worker sits between create and register
+            jobs.append((keys, {"S4_VERIF_SIGINT": "w0:SendStart:0", "S4_VERIF_PLAN_TIMEOUT_MS": "700"},
+                         [(lastw, "WStart"), ("sig", "HRemoved"), (lastw, "TempCreate"), ("main", "Recv"),
+                          ("main", "MainExit"), (lastw, "TempRegister")], None,
+                         "plan:removal-pass-between-create-and-register"))
         # (d) externally timed signals swept over the run
         sweep = 6 if tier == "quick" else 40
         for keys in (combos[1], combos[3]) if tier == "quick" else combos:
@@ -275,7 +289,7 @@ def run(pid, tier, seed):
             ev = res["trace"]
             mex = [e["seq"] for e in ev if e["ev"] == "MainExit"]
             for e in ev:
-                if e["ev"] in ("ReaderDrop", "WReturn") and mex and e["seq"] > mex[0]:
+                if e["ev"] == "ReaderDrop" and mex and e["seq"] > mex[0]:
                     windows += 1
                     break
             if len(samples) < 4 and (sigint or len(samples) < 1):
@@ -284,6 +298,13 @@ def run(pid, tier, seed):
             if not sigint and not res["leftover"]:
                 trace_batches.append(res)
 
+        # model predictions (design parameters read off the code) must be reproduced on the real binary
+        seen = {v[0] for v in rep.violations} | set(rep.known_hits)
+        for sigx, info in predictions.items():
+            parts = sigx.split(":")[-1]
+            if not any(parts in s_ for s_ in seen):
+                rep.note_drift("S4Run.tla with DROPFIRST=%s REGATOMIC=%s predicts %s (config %s) but no run of the real "
+                               "binary reproduced it" % (dropfirst, runmodel.reg_atomic(), sigx, info["config"]))
         # I->S: traces of the normal runs against TraceS4Run (TMPW = all sources)
         accepted = 0
         for res in trace_batches[: (12 if tier == "quick" else 60)]:
@@ -316,7 +337,8 @@ def run(pid, tier, seed):
                "rule": "one evaluation = one run of the hooked binary on 1..4 compressed journal/evtx sources with a private "
                        "TMPDIR; distinct by (sources, schedule/signal placement); non-trivial = a signal was delivered or "
                        "a thread was held at a hook point",
-               "samples": samples, "tlc_configs": details, "dropfirst_measured": dropfirst,
+               "samples": samples, "tlc_configs": details, "dropfirst_measured": dropfirst, "regatomic_scanned": runmodel.reg_atomic(),
+               "model_predictions": sorted(predictions),
                "exit_before_worker_drop_windows_seen": windows, "signal_placements": len([r for r in results if r["label"].startswith("sigint")]),
                "exhaustive": False}
         cov.update(rep.coverage)
